@@ -39,7 +39,8 @@ type edit struct {
 
 // recInfo is what the MITM saw of one honest record.
 type recInfo struct {
-	raw []byte
+	raw  []byte
+	dtls bool
 }
 
 type mnet struct {
@@ -282,7 +283,7 @@ func (n *mnet) route(d, idx int, rec []byte) {
 		put(rec[:k])
 		// the connection is cut: the reader sees end-of-stream after the prefix, later
 		// records of this direction vanish, and the writer sees end-of-stream too
-		n.cutDir[d] = true
+		n.cutDir[0], n.cutDir[1] = true, true
 		n.inEOF[to] = true
 		n.inEOF[d] = true
 	default:
